@@ -2,6 +2,7 @@
 //! Usage: acb_verif_harness <family> --seed N --count N
 //! Writes protocol lines (see lean/Driver/Proto.lean) to stdout.
 mod common;
+mod csvrt;
 mod ledger;
 mod rng;
 
@@ -13,6 +14,33 @@ fn arg_val(args: &[String], name: &str, default: u64) -> u64 {
         .and_then(|i| args.get(i + 1))
         .and_then(|v| v.parse().ok())
         .unwrap_or(default)
+}
+
+/// Generic `<family>-replay`: stdin holds protocol lines of one or more cases; `f` re-runs one case
+/// from its `case` + input lines and appends the new protocol lines.
+fn replay_stdin(w: &mut dyn Write, f: fn(&[String], &mut String) -> bool) {
+    let mut buf = String::new();
+    std::io::Read::read_to_string(&mut std::io::stdin(), &mut buf).unwrap();
+    let mut cur: Vec<String> = Vec::new();
+    let mut n = 0;
+    for l in buf.lines() {
+        if l.starts_with("case ") {
+            cur = vec![l.to_string()];
+        } else if l == "end" {
+            let mut s = String::new();
+            if !cur.is_empty() && f(&cur, &mut s) {
+                w.write_all(s.as_bytes()).unwrap();
+                n += 1;
+            }
+            cur.clear();
+        } else if !cur.is_empty() {
+            cur.push(l.to_string());
+        }
+    }
+    if n == 0 {
+        eprintln!("no replayable case on stdin");
+        std::process::exit(2);
+    }
 }
 
 fn main() {
@@ -64,6 +92,16 @@ fn main() {
                 std::process::exit(2);
             }
         }
+        "csvrt" => {
+            let mut r = rng::Rng::new(seed);
+            for i in 0..count {
+                let mut cr = r.fork();
+                let mut s = String::new();
+                csvrt::run_generated(seed, i, &mut cr, &mut s);
+                w.write_all(s.as_bytes()).unwrap();
+            }
+        }
+        "csvrt-replay" => replay_stdin(&mut w, csvrt::replay),
         f => {
             eprintln!("unknown family {}", f);
             std::process::exit(2);
